@@ -8,6 +8,7 @@ package zzverifrt
 import (
 	"encoding/json"
 	"fmt"
+	"math/big"
 	"os"
 	"strconv"
 	"strings"
@@ -228,3 +229,23 @@ func Yield() {}
 // Go starts a harness thread (an engine thread under the symbolic scheduler). Natively the
 // function runs to completion immediately unless a schedule is being replayed.
 func Go(f func()) { f() }
+
+// Z is a ghost mathematical integer for oracles (unbounded; the engine uses Int terms, arith=int only).
+type Z struct{ b *big.Int }
+
+func ZI(n int64) Z  { return Z{big.NewInt(n)} }
+func ZU(n uint64) Z { return Z{new(big.Int).SetUint64(n)} }
+
+func (a Z) Add(b Z) Z { return Z{new(big.Int).Add(a.b, b.b)} }
+func (a Z) Sub(b Z) Z { return Z{new(big.Int).Sub(a.b, b.b)} }
+func (a Z) Mul(b Z) Z { return Z{new(big.Int).Mul(a.b, b.b)} }
+func (a Z) MulPow10(k int) Z {
+	return Z{new(big.Int).Mul(a.b, new(big.Int).Exp(big.NewInt(10), big.NewInt(int64(k)), nil))}
+}
+func (a Z) Neg() Z        { return Z{new(big.Int).Neg(a.b)} }
+func (a Z) Abs() Z        { return Z{new(big.Int).Abs(a.b)} }
+func (a Z) Le(b Z) bool   { return a.b.Cmp(b.b) <= 0 }
+func (a Z) Lt(b Z) bool   { return a.b.Cmp(b.b) < 0 }
+func (a Z) Ge(b Z) bool   { return a.b.Cmp(b.b) >= 0 }
+func (a Z) Gt(b Z) bool   { return a.b.Cmp(b.b) > 0 }
+func (a Z) Eq(b Z) bool   { return a.b.Cmp(b.b) == 0 }
